@@ -494,7 +494,10 @@ fn check_average(kind: &str, n: usize, h: &[f64], a: f64, b: f64) -> Option<Stri
         let (wl, wh) = if kind == "ema" { (lo, hi) } else { let w = win(&h[..=t], n); (fmin(w), fmax(w)) };
         if let Some(o) = v.last() {
             if o < wl - 1e-9 * (1.0 + wl.abs()) || o > wh + 1e-9 * (1.0 + wh.abs()) { return Some(format!("step {t}: {o} outside the averaged interval [{wl}, {wh}]")); }
-            if let Some(oa) = va.last() { if !close(oa, a * o + b) { return Some(format!("step {t}: not affine-equivariant: view(a x + b) = {oa}, a view(x) + b = {}", a * o + b)); } }
+            // tiny units (a = 2^-60, b = 0): scaling by a power of two commutes exactly with every IEEE operation of an average, so the
+            // comparison is exact there (an absolute tolerance would hide an absolute threshold in the code)
+            if a.abs() < 1e-6 { if let Some(oa) = va.last() { if oa != a * o { return Some(format!("step {t}: not scale-equivariant in tiny units: view(a x) = {oa:e}, a view(x) = {:e} (a = {a:e})", a * o)); } } }
+            else if let Some(oa) = va.last() { if !close(oa, a * o + b) { return Some(format!("step {t}: not affine-equivariant: view(a x + b) = {oa}, a view(x) + b = {}", a * o + b)); } }
             if let Some(ou) = vup.last() { if ou < o - 1e-9 * (1.0 + o.abs()) { return Some(format!("step {t}: raising inputs lowered the output {o} -> {ou}")); } }
         }
         if let Some(oc) = vc.last() { if !close(oc, h[0]) { return Some(format!("step {t}: constant input {} mapped to {oc}", h[0])); } }
@@ -560,9 +563,11 @@ fn check_negation(kind: &str, n: usize, h: &[f64]) -> Option<String> {
 fn check_stability(kind: &str, n: usize, h: &[f64], h2: &[f64]) -> Option<String> {
     let n = n.max(3);
     let mut v = make(kind, echo(), n); let mut w = make(kind, echo(), n);
-    let long = 40 * n + 400;
+    // a head of huge values (search(): x 2^40) takes proportionally longer to fade (the normaliser of TrendFlex/ReFlex decays by 0.96 per step)
+    let huge = h.iter().chain(h2.iter()).any(|x| x.abs() > 1e6);
+    let long = if huge { 8000 } else { 40 * n + 400 };
     // bounded input, long run: the output must stay bounded by a modest constant (inputs are within [-4, 4])
-    for t in 0..long { let x = h[t % h.len()]; v.update(x); if let Some(o) = v.last() { if !o.is_finite() || o.abs() > 1e3 { return Some(format!("step {t}: output {o} for inputs bounded by 4")); } } }
+    if !huge { for t in 0..long { let x = h[t % h.len()]; v.update(x); if let Some(o) = v.last() { if !o.is_finite() || o.abs() > 1e3 { return Some(format!("step {t}: output {o} for inputs bounded by 4")); } } } }
     // common tail: outputs must converge
     let mut v = make(kind, echo(), n);
     for &x in h { v.update(x); } for &x in h2 { w.update(x); }
@@ -633,7 +638,9 @@ fn alias(module: &str) -> &str { match module { "eft_ss" => "ehlers_fisher_trans
 fn eval(c: &Case) -> Option<String> {
     let r = catch_unwind(AssertUnwindSafe(|| eval_inner(c)));
     match r { Ok(x) => x, Err(e) => { let msg = e.downcast_ref::<String>().cloned().or_else(|| e.downcast_ref::<&str>().map(|s| s.to_string())).unwrap_or_default();
-        if c.prop == "C15" || c.prop == "C08" { Some(format!("panic: {msg}")) } else { None } } }
+        // C09 promises FINITE output on bounded input: the crate's own `debug_assert!(.. is_finite(), "value must be finite")` firing inside a
+        // recursive view is a non-finite output and counts for C09; every other panic is the subject of C15/C08 only
+        if c.prop == "C15" || c.prop == "C08" || (c.prop == "C09" && msg.contains("must be finite")) { Some(format!("panic: {msg}")) } else { None } } }
 }
 /// the hand-written `Default` impls are one more constructor: a default-constructed view must behave like `new(Echo::new())`
 fn check_default_ctor(kind: &str, h: &[f64]) -> Option<String> {
@@ -729,7 +736,12 @@ fn search(prop: &str, s: &mut Search) -> (usize, Option<Case>) {
             "C10" => { c.stream2 = gen_stream(&mut s.rng, len, false); c.a = s.rng.pick(&[0.0, 1.0, -1.0, 2.0, 0.5]); c.b = s.rng.pick(&[0.0, 1.0, -2.0, 0.5]); },
             _ => {}
         }
-        if prop == "C04" { c.a = s.rng.pick(&[0.5, 2.0, 4.0, 0.25]); c.b = s.rng.pick(&[0.0, 1.0, -2.0, 8.0]); }
+        // views that recompute their answer from the window (or from a fading recursion) at every step keep no trace of a value that has left
+        // it: a head of huge values (x 2^60) must leave no rounding residue behind - a running sum introduced as an optimisation does.  Only for
+        // views whose code on the pinned tree has that structure (accumulating views drift legitimately: that is C16, not claimed)
+        if ((prop == "C07" && matches!(k, "center_of_gravity" | "net" | "hl_normalizer" | "cti")) || (prop == "C09" && matches!(k, "trend_flex" | "re_flex")))
+            && s.rng.below(5) == 0 { let m = (c.stream.len() / 3).max(1).min(c.stream.len()); let f = (2.0f64).powi(if prop == "C09" { 40 } else { 60 }); for x in c.stream[..m].iter_mut() { *x *= f; } }
+        if prop == "C04" { c.a = s.rng.pick(&[0.5, 2.0, 4.0, 0.25, 8.673617379884035e-19]); c.b = s.rng.pick(&[0.0, 1.0, -2.0, 8.0]); if c.a < 1e-6 { c.b = 0.0; } }
         if prop == "C03" { let suf: Vec<f64> = c.stream2[c.stream2.len() - c.b as usize..].to_vec(); c.stream.extend(suf.iter()); let pre_len = c.stream.len() - suf.len(); let pre1 = c.stream[..pre_len].to_vec();
             let pre2 = c.stream2[..c.stream2.len() - suf.len()].to_vec();
             checked += 1;
